@@ -29,7 +29,7 @@ from ..common import dumps, MachineryError
 from .. import c18_util as U
 
 HCFIX = '1'          # layer-C flag: '0' mirrors the current tree (raw halfcomplex flag decides the range shape)
-STRIDES = [0.5, 1.0, 0.25, 2.0, 0.75, 1.5]
+STRIDES = [0.5, 1.0, 0.25, 2.0, 0.75, 1.5, 0.3, 0.1]     # the last two are not binary fractions (ulp-near nodes)
 OTHER_MODES = ['constant', 'periodic', 'symmetric', 'order0', 'order1', 'reflect', 'antireflect', 'antisymmetric']
 ALL_MODES = OTHER_MODES + ['pywt_periodic']
 QUICK_WAVELETS = ['haar', 'db2', 'db3', 'db7', 'sym4', 'sym5', 'coif1', 'coif3', 'bior1.3', 'bior2.2', 'bior3.5',
@@ -86,33 +86,7 @@ class Families(object):
 
 
 # ------------------------------------------------------------------ concretisations
-def mirror_case(kind, shape, axes, sign, hc, shifts=None, x0=None):
-    """Case record for configurations beyond the TLC export constants.  Only lattice parameters are mirrored
-    (period M, reference frequencies); TLC re-derives both and rejects the event if they differ."""
-    shape, axes = list(shape), list(axes)
-    case = {'kind': kind, 'shape': shape, 'axes': axes, 'sign': sign, 'hc': hc}
-    if kind == 'dft':
-        M = 1
-        for a in axes:
-            M = M * shape[a] // math.gcd(M, shape[a])
-        case['M'] = M
-    else:
-        M = 1
-        for i, a in enumerate(axes):
-            p = 2 * x0[i][1] * shape[a]
-            M = M * p // math.gcd(M, p)
-        case.update(M=M, shifts=list(shifts), x0=[list(q) for q in x0])
-        rs = U.ranshape(shape, axes, hc)
-        freqs = []
-        for idx in np.ndindex(*rs):
-            row = []
-            for i, a in enumerate(axes):
-                fr = Fraction(2 * idx[a] - shape[a] + (0 if shifts[i] else 1), 2 * shape[a])
-                row.append([fr.numerator, fr.denominator])
-            freqs.append(row)
-        case['freqs'] = freqs
-        case['mirrored'] = True
-    return case
+mirror_case = U.mirror_case
 
 
 def variants(hc, quick, idx):
@@ -138,6 +112,7 @@ def dft_tasks(cases, quick, seed, impls):
                     tasks.append({'type': 'dft', 'case': case,
                                   'conc': {'field': field, 'hcflag': hcflag, 'prec': prec, 'impl': impl,
                                            'numpy_ref': first,
+                                           'fwd_modes': ['oop', 'ip'] if (not quick or (ci + vi) % 2 == 0) else ['ip'],
                                            'inv': [['prop', 'oop'], ['ctor', 'ip']] if quick else
                                            [['prop', 'oop'], ['prop', 'ip'], ['ctor', 'oop'], ['ctor', 'ip']]}})
                     first = False
@@ -156,7 +131,11 @@ def ft_tasks(cases, quick, seed, impls):
                 for impl in impls:
                     tasks.append({'type': 'ft', 'case': case,
                                   'conc': {'field': field, 'hcflag': hcflag, 'prec': prec, 'impl': impl,
-                                           'strides': strides}})
+                                           'strides': strides,
+                                           # quick: in-place and out-of-place alternate between the forward and
+                                           # the inverse observations of consecutive cases
+                                           'fwd_modes': ['oop', 'ip'] if (not quick or ci % 2 == 0) else ['oop'],
+                                           'inv_modes': ['oop', 'ip'] if (not quick or ci % 2 == 1) else ['ip']}})
     return tasks
 
 
@@ -164,9 +143,9 @@ def driver_cases(quick, seed):
     """Configurations beyond the constants of the TLC export runs (longer axes, 3-d, other first nodes)."""
     rnd = random.Random(seed * 31 + 5)
     dft, ft = [], []
-    shapes = [(7,), (8,), (9,), (2, 7), (8, 3), (7, 7)]
+    shapes = [(7,), (8,), (9,), (2, 7), (8, 3)]
     if not quick:
-        shapes += [(10,), (12,), (2, 3, 2), (3, 2, 4), (2, 2, 5), (3, 4, 3)]
+        shapes += [(7, 7), (10,), (12,), (2, 3, 2), (3, 2, 4), (2, 2, 5), (3, 4, 3)]
     else:
         shapes += [(2, 3, 2)]
     for shape in shapes:
@@ -186,7 +165,7 @@ def driver_cases(quick, seed):
                         if hc and not shifts[-1]:
                             continue
                         pool = [[1 - shape[a], 2] for a in axes], [[5, 2]] * len(axes), [[-3, 1]] * len(axes), \
-                            [[2, 3]] * len(axes)
+                            [[2, 3]] * len(axes), [[0, 1]] * len(axes)        # last: first node exactly at the origin
                         x0 = pool[rnd.randrange(len(pool))]
                         x0 = [[Fraction(p, q).numerator, Fraction(p, q).denominator] for p, q in x0]
                         ft.append(mirror_case('ft', shape, axes, sign, hc, shifts, x0))
@@ -206,6 +185,17 @@ def hist_concs(quick, impls):
                 for shape, prec, inv_mode in combos:
                     concs.append({'kind': kind, 'impl': impl, 'field': field, 'hcflag': hcflag,
                                   'shape': list(shape), 'prec': prec, 'inv_mode': inv_mode})
+                    if not quick and (shape, prec, inv_mode) != ((3, 4), 64, 'fresh'):
+                        concs[-1]['subset'] = 'half'     # thorough: every length-4 history on (3,4), half elsewhere
+                # T is itself a derived operator (a third of the behaviours), and, for the continuous transform,
+                # caller-owned temporaries handed to the constructor (behaviours with a scribble action)
+                if field == 'R' and hcflag or (not quick and field == 'C'):
+                    for chain in (('ii',) if quick else ('ii', 'aa')):
+                        concs.append({'kind': kind, 'impl': impl, 'field': field, 'hcflag': hcflag, 'shape': [3, 4],
+                                      'prec': 64, 'inv_mode': 'fresh', 'chain': chain, 'subset': 'third'})
+                if kind == 'ft' and (field == 'C' or hcflag):
+                    concs.append({'kind': kind, 'impl': impl, 'field': field, 'hcflag': hcflag, 'shape': [3, 4],
+                                  'prec': 64, 'inv_mode': 'fresh', 'tmp': 'given', 'subset': 'scribble'})
     return concs
 
 
@@ -242,7 +232,8 @@ def run(ctx):
     timing = ctx.extra.setdefault('timing_s', {})
     ctx.rule = ('abstract case = transform configuration (kind, shape, axes, sign, effective half-complex flag, '
                 'per-axis shift, first node / stride) exported by TLC or enumerated beyond its constants, call '
-                'history of length <= 3(4), wavelet layout (shape, axes, filter length, mode class, levels), wavelet '
+                'history of length <= 3(4) (incl. caller-side mutation of constructor arguments, on constructed and on '
+                'derived operators), derivation chain of .inverse / .adjoint to depth 2(3) over option records, wavelet layout (shape, axes, filter length, mode class, levels), wavelet '
                 'operator (wavelet, pad mode, levels, shape); one evaluation = one projected observation '
                 '(matrix, round trip, history step, layout, relation) of a concretisation (field, flag, precision, '
                 'back-end, in-place / out-of-place, strides) compared with the specification; distinct = hash of '
@@ -276,6 +267,7 @@ def run(ctx):
     f_ft = os.path.join(work, 'exp_ft.ndjson')
     f_hist = os.path.join(work, 'exp_hist.ndjson')
     f_wl = os.path.join(work, 'exp_wl.ndjson')
+    f_der = os.path.join(work, 'exp_deriv.ndjson')
     n2_ft = '4' if quick else '6'
     x0 = 'two' if quick else 'all'
     env_dft = {'C18_KIND': 'dft', 'C18_MAXN1': '6', 'C18_MAXN2': '6', 'C18_X0': 'two'}
@@ -287,6 +279,8 @@ def run(ctx):
         ('export-hist+props', 'MC_DFTMachine.tla', 'MC_DFTMachine.cfg',
          {'C18_HLEN': '3' if quick else '4', 'OUT_FILE': f_hist}, 1),
         ('export-wavelayout', 'MC_WaveLayout.tla', 'MC_WaveLayout_export.cfg', dict(env_wl, OUT_FILE=f_wl), 1),
+        ('export-deriv+laws', 'MC_DFTDerive.tla', 'MC_DFTDerive.cfg',
+         {'C18_DLEN': '2' if quick else '3', 'OUT_FILE': f_der}, 1),
         ('laws-dft', 'MC_DFTSem.tla', 'MC_DFTSem_laws.cfg', dict(env_dft, OUT_FILE=os.devnull), 3),
         ('laws-ft', 'MC_DFTSem.tla', 'MC_DFTSem_laws.cfg', dict(env_ft, OUT_FILE=os.devnull), 3 if quick else 6),
         ('recipgrid-impl', 'MC_RecipGridImpl.tla', 'MC_RecipGridImpl.cfg', {'C18_HCFIX': HCFIX}, 2),
@@ -320,6 +314,12 @@ def run(ctx):
     concs = hist_concs(quick, impls)
     for conc in concs:
         app = [b for b in behaviours if U.hist_applicable(conc, b['steps'])]
+        if conc.get('subset') == 'third':
+            app = [b for i, b in enumerate(app) if (i + seed) % 3 == 0]
+        elif conc.get('subset') == 'half':
+            app = [b for i, b in enumerate(app) if (i + seed) % 2 == 0]
+        elif conc.get('subset') == 'scribble':
+            app = [b for b in app if any(st['act']['op'] == 'scribble' for st in b['steps'])]
         step = 40
         for i in range(0, len(app), step):
             tasks.append({'type': 'hist', 'conc': conc, 'behaviours': app[i:i + step], 'seed': seed})
@@ -328,6 +328,16 @@ def run(ctx):
     for conc in concs:
         behs = [random_history(rnd, conc, 6) for _ in range(6 if quick else 25)]
         tasks.append({'type': 'hist', 'conc': conc, 'behaviours': behs, 'seed': seed + 1})
+    # derivation chains (.inverse / .adjoint to depth 2 (3)) exported by DFTDerive
+    need('export-deriv+laws')
+    seen_chain = set()
+    for c in lines(f_der):
+        ck = h16([c['base'], c['path']])
+        if ck in seen_chain or c['base']['impl'] not in impls + ['pywt'] or \
+                (c['base']['kind'] == 'wave' and not U.HAVE_PYWT):
+            continue
+        seen_chain.add(ck)
+        tasks.append({'type': 'deriv', 'base': c['base'], 'path': c['path'], 'desc': c['desc']})
     d_dft, d_ft = driver_cases(quick, seed)
     tasks += dft_tasks(d_dft, quick, seed, impls)
     tasks += ft_tasks(d_ft, quick, seed, impls)
@@ -440,7 +450,8 @@ def run(ctx):
                 o['expected'] = t['case'][o['expkey']]
             if o.get('expected') is not None:
                 nrep += 1
-                got = ev.get('obs') if ev['k'] == 'tab' else (ev.get('post') if ev['k'] == 'hist' else ev.get('blocks'))
+                got = ev.get('obs') if ev['k'] in ('tab', 'deriv') else \
+                    (ev.get('post') if ev['k'] == 'hist' else ev.get('blocks'))
                 if ev.get('err') or got != o['expected']:
                     replay_mismatch[key] = True
                 else:
@@ -504,7 +515,7 @@ def run(ctx):
         names = set(re.findall(r'<<\s*"([\w-]+)"', cl))
         if names & set(harness_clauses):
             raise MachineryError('harness-side clause rejected: %s %s' % (cl, dumps(events[k][0])[:300]))
-        if k in replay_match and k not in replay_mismatch and names <= {'table', 'hist', 'layout-blocks'}:
+        if k in replay_match and k not in replay_mismatch and names <= {'table', 'hist', 'layout-blocks', 'derived'}:
             raise MachineryError('observation equal to the exported expectation rejected by Trace_FT: %s %s'
                                  % (cl, dumps(events[k][0])[:300]))
 
@@ -601,6 +612,8 @@ def task_cost(t):
         return n * (3 if t['type'] == 'ft' else 1)
     if t['type'] == 'hist':
         return 4 * len(t['behaviours'])
+    if t['type'] == 'deriv':
+        return 2 * int(np.prod(t['base']['shape']))
     if t['type'] == 'gauss':
         return 30
     if t['type'] == 'wave_lay':
@@ -626,6 +639,7 @@ def random_history(rnd, conc, length):
             acts.append({'op': 'plan', 'x': '-', 'o': '-'})
         if conc['kind'] == 'ft':
             acts.append({'op': 'temps', 'x': '-', 'o': '-'})
+        acts.append({'op': 'scribble', 'x': '-', 'o': '-'})
         a = rnd.choice(acts)
         if a['op'] == 'call':
             heap['q'], heap['r'] = heap['r'], F[heap[a['x']]]
@@ -644,6 +658,8 @@ def outcome_of(ev, clauses, where):
     names = re.findall(r'<<\s*"([\w-]+)"\s*,\s*("?[\w-]*"?)', clauses)
     if ev.get('err'):
         return 'raises:' + ev['err']
+    if ev['k'] == 'deriv':
+        return 'wrong-options:' + '+'.join(sorted({b.strip('"') for a, b in names if a == 'derived'}))
     if ev['k'] == 'hist':
         objs = {b.strip('"') for a, b in names if a == 'hist'}
         act = ev['act']
@@ -660,6 +676,8 @@ def slim_task(t):
     t = dict(t)
     if 'case' in t and t['case']:
         t['case'] = {k: v for k, v in t['case'].items() if k not in ('tab', 'inv')}
+    if t.get('type') == 'wave_lay':
+        t['case'] = {k: v for k, v in (t.get('case') or {}).items()}
     if 'behaviours' in t:
         t['behaviours'] = t['behaviours'][:0]
     return t
